@@ -43,7 +43,7 @@ func loadProgram(repo string) (*Gen, error) {
 	prog, spkgs := ssautil.Packages(pkgs, ssa.GlobalDebug|ssa.InstantiateGenerics)
 	prog.Build()
 	g := &Gen{prog: prog, pkgs: map[string]*ssa.Package{}, byName: map[string]*ssa.Package{}, impByName: map[string]*types.Package{},
-		fset: prog.Fset, funcByKey: map[string]*ssa.Function{}, keyAlias: map[*ssa.Function]string{}, maxInline: 6, inlineExt: map[string]bool{}}
+		fset: prog.Fset, funcByKey: map[string]*ssa.Function{}, keyAlias: map[*ssa.Function]string{}, heapTy: map[string]types.Type{}, maxInline: 6, inlineExt: map[string]bool{}}
 	// module path = common prefix: take the shortest package path
 	for _, p := range spkgs {
 		if p == nil {
